@@ -75,7 +75,7 @@ theorem processBatch_spec {cfg : Cfg} (P : Params α) {den : Key → α} :
       have hnd2' := List.nodup_cons.mp hnd2
       have hkpend : key ∉ pendKeys s := fun hk => hnd3 key hk key (by simp) rfl
       have hB : BatchInv cfg den rest { s with st := st', log := s.log ++ [(Ev.posttask key, st')] } := by
-        refine ⟨hinv', ?_, ?_, ?_, h.pendVal, ?_, h.pendNonempty, ?_, ?_, ?_, ?_, ?_, ?_, ?_⟩
+        refine ⟨hinv', ?_, ?_, ?_, h.pendVal, ?_, h.pendNonempty, ?_, ?_, ?_, ?_, ?_, ?_, ?_, ?_⟩
         · intro d v hv
           rcases hcache d v hv with ⟨rfl, rfl⟩ | hold
           · exact hres
@@ -161,6 +161,16 @@ theorem processBatch_spec {cfg : Cfg} (P : Params α) {den : Key → α} :
             subst hk'
             rw [preKeys_append]
             exact List.mem_append_left _ ((h.preIff k).mpr (Or.inl hkrun))
+        · intro e he
+          have he' : e ∈ s.log ++ [(Ev.posttask key, st')] := he
+          rcases List.mem_append.mp he' with he1 | he1
+          · exact h.snapSound e he1
+          · simp only [List.mem_singleton] at he1
+            subst he1
+            intro d v hv
+            rcases hcache d v hv with ⟨rfl, rfl⟩ | hold
+            · exact hres
+            · exact h.sound d v hold
       obtain ⟨s', o, hpb, hpend, hnone, hsome, hmono, hdd, hfok, hlog⟩ := ih _ hB
       have hfok' : ∀ k, k ∈ s'.st.finished → k ∈ s.st.finished ∨ P.fails k = false := by
         intro k hk
@@ -266,7 +276,7 @@ theorem iter_spec {cfg : Cfg} (P : Params α) {den : Key → α} (hden : IsDen c
       exact hperm.map _
     have hbmem : batch ∈ s1.pending := List.mem_of_getElem? hb
     have hB : BatchInv cfg den batch { s1 with pending := s1.pending.eraseIdx choice } := by
-      refine ⟨hinv1.inv, hinv1.sound, ?_, ?_, ?_, ?_, ?_, hinv1.preNodup, hinv1.preIff, hinv1.postNodup, hinv1.postIff, hinv1.preSnap, hinv1.noFinish, hinv1.ordered⟩
+      refine ⟨hinv1.inv, hinv1.sound, ?_, ?_, ?_, ?_, ?_, hinv1.preNodup, hinv1.preIff, hinv1.postNodup, hinv1.postIff, hinv1.preSnap, hinv1.noFinish, hinv1.ordered, hinv1.snapSound⟩
       · have := hinv1.nodup
         simp only [List.map_nil, List.append_nil] at this
         exact hpermK.nodup_iff.mp this
